@@ -141,6 +141,10 @@ func (h *NFSProcedureHandler) handleCreate(body io.Reader, reply *RPCReply, auth
 		}
 		reply.Data = buf.Bytes()
 		return reply, nil
+	} else if mapError(lookupErr) != NFSERR_NOENT {
+		// The name could not be examined (backend I/O error, lookup timeout): whether an
+		// object exists is unknown, so do not go on to a create that would truncate it.
+		return nfsErrorWithWcc(reply, mapError(lookupErr)), nil
 	}
 
 	attrs := &NFSAttrs{
